@@ -128,7 +128,9 @@ def generate(seed, tier):
         # delete has to be resolved when it is replayed, not when it was called
         targets = [int(op[2][1:]) for op in rec["txs"][0]["body"] if op[0] == "del_term" and op[1] == "k"]
         bkeys = [(wrng.choice(targets) if (targets and wrng.random() < 0.7) else 100 + i) for i in range(2)]
-        rec["fe_args"] = {"delay": mrng.choice((0.05, 0.25)), "hold": mrng.choice((0.01, 0.3, 1.0)),
+        # a short delay makes the replay thread poll the lock densely: its attempts then land inside the
+        # few storage operations between the holder's TOC rename and the end of its clean-up
+        rec["fe_args"] = {"delay": random.Random("%s/delay" % seed).choice((mrng.choice((0.05, 0.25)), 0.002, 0.0005)), "hold": mrng.choice((0.01, 0.3, 1.0)),
                           "blocker_docs": [dg.doc(key=k_) for k_ in bkeys]}
     return rec
 
